@@ -10,3 +10,5 @@ import SoxrModel.Properties.C15
 #print axioms Soxr.Properties.C15.delay_after_flush_every_history
 #print axioms Soxr.Properties.C15.delay_gt_neg_one_every_history
 #print axioms Soxr.Properties.C15.delay_after_flush_any_phase
+#print axioms Soxr.Properties.C15.delay_zero_after_error
+#print axioms Soxr.Properties.C15.delay_guard_transparent
